@@ -16,10 +16,11 @@ Lemma quorum_of_pos ws : 0 < ElectionSpec.quorum_of ws.
 Proof. unfold ElectionSpec.quorum_of. lia. Qed.
 
 Lemma id_fresh_not_temp K x n : n <= K -> id_fresh K x -> ~ is_temp n x.
-Proof. intros L F (ep & lm & c & t & Bc & S & E). apply F. exists ep, lm, c, t. split; [lia | auto]. Qed.
+Proof. intros L F (ep0 & lm & c & t & Bc & S & E). apply F. exists ep0, lm, c, t. split; [lia | auto]. Qed.
 
 Section Sim.
 Variable cap : nat.
+Variable ep : N.
 Variable lam : fev -> N.
 Variable vals : list (N * N).
 Hypothesis Hvals : vals_ok vals.
@@ -28,7 +29,7 @@ Notation ws := (map snd vals).
 Notation nv := (length vals).
 Notation q := (ElectionSpec.quorum_of ws).
 Notation fcn := (fc_n ws q).
-Notation ae := (to_aevent lam vals).
+Notation ae := (to_aevent ep lam vals).
 Notation rts := (roots_at node nd_fr nd_spf).
 
 Lemma vals_nodup : NoDup (v_ids vals).
@@ -56,7 +57,7 @@ Definition cache_inv (k : N -> Prop) (st : lstate) (Ta Tb : list node) : Prop :=
 Record Core (st : lstate) (es : estore) (T : list node) (Dr : list fev) (R : list node) : Prop := {
   co_wf : wfTD vals T Dr;
   co_vals : l_vals st = vals;
-  co_epoch : l_epoch st = 1;
+  co_epoch : l_epoch st = ep;
   co_vinv : vinv nv (l_idx st);
   co_evs : evs (l_idx st) = E_of Dr;
   co_es : forall e, In e Dr -> (exists n, In n R /\ nd_id n = eid (fe e)) -> get_event es (eid (fe e)) = Some (ae e);
